@@ -139,6 +139,10 @@ type genPiece struct {
 	dyn   *genDyn
 	alts  []string // one of these constants (a value looked up in a constant table)
 	group *genGroup // zero or more elements (each one of the alternatives elems) separated by sep
+	// emit: the text an emitting function of the generator writes, used as a string (`goType(t)` that runs the type
+	// writer on a scratch buffer and returns its contents): the function is walked at this point of the text
+	emit     *ast.FuncDecl
+	emitCall *ast.CallExpr
 }
 
 type genGroup struct {
@@ -476,6 +480,9 @@ func (a *genWalker) pieces(e ast.Expr) ([]genPiece, bool) {
 			if vals, _, ok := a.tableFunc(a.funcs[id.Name]); ok {
 				return []genPiece{{alts: vals}}, true
 			}
+			if g, inner := a.stringForwarder(a.funcs[id.Name]); g != nil {
+				return []genPiece{{emit: g, emitCall: inner}}, true
+			}
 		}
 		// strings.Join(list, sep) of a local list that is filled by appends in a loop: zero or more elements
 		// separated by the constant
@@ -757,7 +764,8 @@ func (a *genWalker) feedExpr(l lexState, e ast.Expr) lexState {
 	// `q := "\"" + name + "\""` must not split the text it is spliced into)
 	var merged []genPiece
 	for _, p := range ps {
-		if p.dyn == nil && p.alts == nil && p.group == nil && len(merged) > 0 && merged[len(merged)-1].dyn == nil && merged[len(merged)-1].alts == nil && merged[len(merged)-1].group == nil {
+		isK := func(q genPiece) bool { return q.dyn == nil && q.alts == nil && q.group == nil && q.emit == nil }
+		if isK(p) && len(merged) > 0 && isK(merged[len(merged)-1]) {
 			merged[len(merged)-1].konst += p.konst
 			continue
 		}
@@ -771,6 +779,9 @@ func (a *genWalker) feedExpr(l lexState, e ast.Expr) lexState {
 		if a.curSeg == nil {
 			a.curSeg = &genFrag{Pos: e.Pos(), Fn: a.curFn, At: l}
 		}
+		if p.emit != nil {
+			continue // the emitting function's own text follows in its own segments
+		}
 		if p.dyn != nil || p.alts != nil || p.group != nil {
 			a.curSeg.Text += "\x00"
 		} else {
@@ -778,6 +789,13 @@ func (a *genWalker) feedExpr(l lexState, e ast.Expr) lexState {
 		}
 	}
 	for i, p := range ps {
+		if p.emit != nil {
+			a.flushSeg()
+			l = a.callFn(p.emit, l, p.emitCall)
+			a.flushSeg()
+			a.lastConst = ""
+			continue
+		}
 		if p.group != nil {
 			// zero or more elements separated by a constant: every element and the separator must leave the output
 			// in the mode it was in (like the body of a loop)
@@ -1813,6 +1831,69 @@ func (a *genWalker) tableFunc(fd *ast.FuncDecl) ([]string, []ast.Expr, bool) {
 		}
 	}
 	return vals, keys, len(vals) > 0
+}
+
+// stringForwarder: fd is `func f(args) string { var sb strings.Builder; g(&sb, args...); return sb.String() }`: the text
+// that the emitting function g writes, as a value. Returns g and the call of g.
+func (a *genWalker) stringForwarder(fd *ast.FuncDecl) (*ast.FuncDecl, *ast.CallExpr) {
+	if fd == nil || fd.Body == nil || len(fd.Body.List) != 3 || fd.Type.Results == nil || fd.Type.Results.NumFields() != 1 {
+		return nil, nil
+	}
+	ds, ok := fd.Body.List[0].(*ast.DeclStmt)
+	if !ok {
+		return nil, nil
+	}
+	gd, ok := ds.Decl.(*ast.GenDecl)
+	if !ok || len(gd.Specs) != 1 {
+		return nil, nil
+	}
+	vs, ok := gd.Specs[0].(*ast.ValueSpec)
+	if !ok || len(vs.Names) != 1 || !isBufferType(a.info.TypeOf(vs.Type)) {
+		return nil, nil
+	}
+	buf := a.info.Defs[vs.Names[0]]
+	es, ok := fd.Body.List[1].(*ast.ExprStmt)
+	if !ok {
+		return nil, nil
+	}
+	call, ok := es.X.(*ast.CallExpr)
+	if !ok || len(call.Args) == 0 {
+		return nil, nil
+	}
+	// first argument &sb
+	u, ok := call.Args[0].(*ast.UnaryExpr)
+	if !ok || u.Op != token.AND {
+		return nil, nil
+	}
+	if id, ok := u.X.(*ast.Ident); !ok || a.info.Uses[id] != buf {
+		return nil, nil
+	}
+	var g *ast.FuncDecl
+	switch f := call.Fun.(type) {
+	case *ast.Ident:
+		g = a.funcs[f.Name]
+	case *ast.SelectorExpr:
+		g = a.methodDecl(f)
+	}
+	if g == nil {
+		return nil, nil
+	}
+	rs, ok := fd.Body.List[2].(*ast.ReturnStmt)
+	if !ok || len(rs.Results) != 1 {
+		return nil, nil
+	}
+	rc, ok := rs.Results[0].(*ast.CallExpr)
+	if !ok {
+		return nil, nil
+	}
+	rse, ok := rc.Fun.(*ast.SelectorExpr)
+	if !ok || rse.Sel.Name != "String" {
+		return nil, nil
+	}
+	if id, ok := rse.X.(*ast.Ident); !ok || a.info.Uses[id] != buf {
+		return nil, nil
+	}
+	return g, call
 }
 
 // decls: the functions and the methods of the generator package (methods keyed "<name>()").
